@@ -37,4 +37,10 @@ theorem C12_chain_rules_sound {α : Type} (P : HT.Prog α) (D : HT.RDefs α) (hP
 theorem C12_telescope (a : Int) (l : List Int) : a + Alg.tele (a :: l) = (a :: l).getLast (List.cons_ne_nil _ _) :=
   Alg.tele_eq a l
 
+/-- `api.optimize` (read from the source on every run) constructs this pass with the current program and the caller's
+own declaration lists, under the parameter names the class declares, and replaces the current program by its result -/
+theorem C12_wiring :
+    Tables.API_ARGS.lookup "minmax_chains" = some (["input_", "input_predicates"], "input_", "input_") ∧
+    Tables.CTOR_PARAMS.lookup "minmax_chains" = some ["prg", "input_predicates"] := by decide
+
 end NgoVerif
